@@ -178,13 +178,35 @@ void sequences(vf::Ctx& c, int depth, int init, int firstOp) {
   c.note_max("states_new_at_last_depth", (double)(statesAll.size() - statesShallow.size()));
 }
 
+
+// ---- T: re-anchoring trajectories on ONE converter: anchors a graded small step apart (a receiver re-anchoring on successive fixes) ------
+void anchor_trajectory(vf::Ctx& c, int start) {
+  const double lats[] = {0.7991, -0.6458, 1.36, 0.0}; double lat0 = lats[start], lon0 = 0.0538 - 0.8 * start, h0 = 365.0;
+  const double steps[] = {1e-12, 2.5e-10, 7e-10, 1e-9, 4e-9, 1e-8, 1e-6, 1e-4};
+  ENUConverter conv;
+  for (double s : steps) for (int dir = 0; dir < 4; ++dir) for (int k = 0; k < 12; ++k) {
+    double f = (k % 2) ? (k + 1) / 2 : -(k / 2);   // widening back-and-forth around the start
+    GeodeticCoordinates A = makeGeodeticCoordinates(lat0 + (dir == 0 || dir == 3 ? f * s : 0), lon0 + (dir == 1 || dir == 3 ? f * s : 0), h0 + (dir == 2 ? f * s * 6.4e6 : 0));
+    conv.setAnchor(A);
+    c.transitions(); c.eval(); c.nontrivial();
+    std::string params = vf::JO().str("explorer", "anchor trajectory").num("start_lat", lat0).num("step_rad", s).str("direction", dir == 0 ? "north" : dir == 1 ? "east" : dir == 2 ? "up" : "north-east").i("k", k).done();
+    ENUConverter fresh(A);
+    Eigen::Vector3d o = conv.toENU(A);
+    for (int j = 0; j < 3; ++j) c.obs(o[j]);
+    bool ok = conv.isAnchored() && same_geo(conv.getAnchor(), A) && conv.getEnuToEcefTransform().matrix() == fresh.getEnuToEcefTransform().matrix() && o.norm() <= 1e-6;
+    if (!ok) { c.violation("ENUConverter.setAnchor.nearbyAnchor", params, vf::JO().num("anchor_maps_to_norm_m", o.norm()).b("anchor_stored", same_geo(conv.getAnchor(), A)).b("frame_equals_fresh", conv.getEnuToEcefTransform().matrix() == fresh.getEnuToEcefTransform().matrix()).done()); return; }
+  }
+  c.traces();
+}
+
 }  // namespace
 
-uint64_t vf_ncases(const std::string& tier) { return anchors().size() + 4 * NOPS + 4; }
+uint64_t vf_ncases(const std::string& tier) { return anchors().size() + 4 * NOPS + 4 + 4; }
 
 void vf_run(uint64_t idx, const std::string& tier, vf::Ctx& c) {
   size_t na = anchors().size();
   if (idx < na) lattice(c, idx);
+  else if (idx >= na + 4 * NOPS + 4) anchor_trajectory(c, (int)(idx - na - 4 * NOPS - 4));
   else { int k = (int)(idx - na); if (k >= 4 * NOPS) sequences(c, -1, k - 4 * NOPS, 0); else sequences(c, tier == "thorough" ? 5 : 4, k / NOPS, k % NOPS); }
 }
 
@@ -193,6 +215,7 @@ std::string vf_describe(const std::string& tier) {
   o.u("anchors", anchors().size()).str("anchor_lattice", "lat {-85,-60,-30,-1e-6,0,33.3,45,60,85} deg x lon {-180,-179.999,-90,0,2.5,90,179.999,180} deg x h {-500,0,300,9000} m");
   o.str("local_points", "{0,+-1,+-100,+-1e4,+-1e5}^2 x {0,+-100,+-1e4} m");
   o.i("sequence_depth", tier == "thorough" ? 5 : 4).str("sequence_ops", "20 operations (setAnchor x3, reset, toENU geodetic x3 / wgs84 x3 / ecef x3, toECEF x2, toWGS84 x2, getters, assign to another long-lived converter and continue with it, continue with a copy-constructed converter) from 4 initial constructions; const conversions only when the model says anchored; plus, from each construction, a fixed script of 30 operations and every variant with ONE position replaced by any operation");
+  o.str("anchor_trajectories", "one converter re-anchored 12 times per (step, direction) on anchors {1e-12,2.5e-10,7e-10,1e-9,4e-9,1e-8,1e-6,1e-4} rad (6 um .. 640 m) apart, north / east / up / north-east, from 4 starts: anchor stored, frame bit-equal to a fresh converter, anchor maps to the origin within 1 um");
   o.str("oracle", "frame = (east,north,up) from the definition within 1e-12; conversions within 1e-6 m of the long-double reference; state after every step equals a fresh converter anchored at the model anchor (bitwise)");
   return o.done();
 }
